@@ -138,7 +138,7 @@ const (
 	evComputeUnknown             // CU: ComputeChallenge of a name that was not declared
 	evComputeOrder               // CO: ComputeChallenge before its predecessor
 	evRecompute                  // RC: ComputeChallenge of an already computed challenge
-	evMutation                   // MU: caller-side mutation of >=1 non-empty bound or returned slice
+	evMutation                   // MU: caller-side mutation (overwrite / append) of >=1 bound or returned slice
 	evAll            = 1<<iota - 1
 )
 
